@@ -877,9 +877,13 @@ class UniformMeshGeometryConverter(GeometryConverter):
                         if sourceBlockVal is None:
                             continue
                         if paramMapper.isPeak[paramName]:
-                            updatedDestVals[paramName] = max(
-                                sourceBlockVal, updatedDestVals[paramName]
-                            )
+                            if paramName in updatedDestVals:
+                                updatedDestVals[paramName] = max(
+                                    sourceBlockVal, updatedDestVals[paramName]
+                                )
+                            else:
+                                # the first overlapped value, not the 0.0 of the defaultdict
+                                updatedDestVals[paramName] = sourceBlockVal
                         else:
                             if paramMapper.isVolIntegrated[paramName]:
                                 denominator = sourceBlockHeight
